@@ -76,22 +76,23 @@ PROPS = {
         "sanitizers": ["miri_topdown"],
         "scale": {"quick": 1, "thorough": 40},
         "floors": {
-            "quick": {"compilations": 5000, "conditionings": 50000, "compilations_in_a_used_builder": 1200, "builder_literals": 10000, "compilations_over_spread_labels": 200, "witness_compilations": 2},
+            "quick": {"compilations": 5000, "conditionings": 50000, "compilations_in_a_used_builder": 1200, "builder_literals": 10000, "compilations_over_spread_labels": 200, "witness_compilations": 4,
+                      "compilations_with_truncated_hash": 600, "component_cache_hash_conflicts": 400},
             "thorough": {"compilations": 200000},
         },
-        "rule": "One evaluation = one top-down compilation (StandardDecisionNNFBuilder or SemanticDecisionNNFBuilder over the 64-bit prime) of a generated CNF under a decision order: the result is walked structurally into a truth table and compared with the harness's evaluation of the clause list; is_false() must coincide with unsatisfiability; no node's variable may re-occur below it (no path decides a variable twice); condition(r,v,b) and condition(!r,v,b) are compared with the cofactor for every variable and value. Regime allorders: every permutation of the variables for CNFs over <= 4 variables; rand: random permutations, <= 9 variables, both stores on the same input; reuse: ONE builder compiles 3-5 related CNFs over the same variables one after the other (the first one again at the end), every result checked as above and every earlier result re-walked after each later compilation; TopDownBuilder::var literals are checked too. CNFs are biased to unit clauses, implication chains with a unit at one end, UNSAT cores found only after branching, and the same clause pattern on two disjoint variable blocks (component-cache hits); empty formula, empty clauses, tautological clauses and duplicate literals occur. Non-trivial = function neither constant nor literal; distinct = distinct (function, order, store) triples. Wide regime: the input's (at most 10) variables are spread over up to 200 rsdd labels, biased to the 64/128 word boundaries, most indices unused; orders, vtrees, partial models and weight tables cover the whole label range, while the oracle keeps working on the dense variables through the harness's own label map. Regime hash_witness compiles the recorded 2 308-variable collision witness of F12 with both node stores and compares the diagram with the CNF on the assignment where CNF|x=T and CNF|x=F differ (one path walk, no truth table).",
+        "rule": "One evaluation = one top-down compilation (StandardDecisionNNFBuilder or SemanticDecisionNNFBuilder over the 64-bit prime) of a generated CNF under a decision order: the result is walked structurally into a truth table and compared with the harness's evaluation of the clause list; is_false() must coincide with unsatisfiability; no node's variable may re-occur below it (no path decides a variable twice); condition(r,v,b) and condition(!r,v,b) are compared with the cofactor for every variable and value. Regime allorders: every permutation of the variables for CNFs over <= 4 variables; rand: random permutations, <= 9 variables, both stores on the same input; reuse: ONE builder compiles 3-5 related CNFs over the same variables one after the other (the first one again at the end), every result checked as above and every earlier result re-walked after each later compilation; TopDownBuilder::var literals are checked too. CNFs are biased to unit clauses, implication chains with a unit at one end, UNSAT cores found only after branching, and the same clause pattern on two disjoint variable blocks (component-cache hits); empty formula, empty clauses, tautological clauses and duplicate literals occur. Non-trivial = function neither constant nor literal; distinct = distinct (function, order, store) triples. Wide regime: the input's (at most 10) variables are spread over up to 200 rsdd labels, biased to the 64/128 word boundaries, most indices unused; orders, vtrees, partial models and weight tables cover the whole label range, while the oracle keeps working on the dense variables through the harness's own label map. Regime hash_witness compiles the recorded 2 308-variable collision witness of F12 with both node stores and compares the diagram with the CNF on the assignment where CNF|x=T and CNF|x=F differ (one path walk, no truth table), and the 2 176-clause witness of F17 (a collision constructed against the repaired hash modulo 2^127-1) with the whole truth table. Regime weak_hash: the residual hash is truncated to 0, 1, 2, 3, 5 or 8 bits by hook H5 while branching-heavy CNFs (5-10 variables, clause widths 2-4) are compiled with both stores; the number of component-cache lookups that met an entry with the same hash and another residual formula is counted (floor).",
         "exhaustive_note": "for CNFs over <= 4 variables every permutation of the variables is used as decision order; the CNFs themselves are sampled",
-        "assumptions": ASSUME_COMMON + ["semantic-hash store: a 64-bit hash collision would be a false alarm with probability ~2^-50 per run; none has been observed", "the component cache trusts the 127-bit residual hash alone (see C09's assumption)"],
+        "assumptions": ASSUME_COMMON + ["semantic-hash store: a 64-bit hash collision would be a false alarm with probability ~2^-50 per run; none has been observed", "regime weak_hash runs with the verif hook that truncates SATSolver::cur_hash (the truncation is applied where the hash is read, nothing else changes)"],
     },
     "C09": {
         "profiles": {"quick": ["mon"], "thorough": ["mon", "monrel"]},
         "scale": {"quick": 1, "thorough": 40},
         "floors": {
             "quick": {"solvers": 1500, "decides": 50000, "pops": 15000, "states_checked": 30000, "decides_with_propagation": 3000,
-                      "hash_repeats": 1000, "states_sat": 500, "decide_unsat": 1000, "solvers_over_spread_labels": 400, "witness_states": 4},
+                      "hash_repeats": 1000, "states_sat": 500, "decide_unsat": 1000, "solvers_over_spread_labels": 400, "witness_states": 6, "residual_checks": 30000, "residual_repeats": 1000},
             "thorough": {"decides": 2000000},
         },
-        "rule": "One evaluation = one solver driven through a random decide/pop history (30-150 steps; long regime 300-600) over a generated CNF with <= 10 variables (clause widths 1-5, duplicate literals, tautological clauses, occasionally an empty clause or the empty formula). After construction and after every decide the observable state (model through the read-only hook, is_set, difference_iter, is_sat, cur_hash) is checked: (1) every assigned value is entailed -- brute force over all models of CNF and decisions; (2) UNSAT / None only if no model extends the decisions, and a refused decision leaves the state unchanged; (3) no clause falsified or with exactly one unassigned literal and no true literal, and the model contains the closure computed by an independent naive propagator; (4) the state observed after pop equals field by field the state recorded before the matching decide (pops unwind 1..k levels); (5) is_sat iff every non-tautological clause has a true literal; (6) per solver a map hash -> residual formula: a second, different residual under the same hash is a violation (asserted only while the product of all occurrence primes is < 2^128). Decisions re-decide assigned variables and decide against implied values. Non-trivial = at least one decision propagated a further literal; distinct = distinct (CNF) inputs. Wide regime: the input's (at most 10) variables are spread over up to 200 rsdd labels, biased to the 64/128 word boundaries, most indices unused; orders, vtrees, partial models and weight tables cover the whole label range, while the oracle keeps working on the dense variables through the harness's own label map. Regime hash_witness replays the two recorded collision witnesses of the pre-fix hash (F12: 770- and 2 308-variable CNFs whose literal-prime products agree modulo 2^128): the two reachable states must not have the same hash.",
+        "rule": "One evaluation = one solver driven through a random decide/pop history (30-150 steps; long regime 300-600) over a generated CNF with <= 10 variables (clause widths 1-5, duplicate literals, tautological clauses, occasionally an empty clause or the empty formula). After construction and after every decide the observable state (model through the read-only hook, is_set, difference_iter, is_sat, cur_hash) is checked: (1) every assigned value is entailed -- brute force over all models of CNF and decisions; (2) UNSAT / None only if no model extends the decisions, and a refused decision leaves the state unchanged; (3) no clause falsified or with exactly one unassigned literal and no true literal, and the model contains the closure computed by an independent naive propagator; (4) the state observed after pop equals field by field the state recorded before the matching decide (pops unwind 1..k levels); (5) is_sat iff every non-tautological clause has a true literal; (6) per solver a map hash -> residual formula: a second, different residual under the same hash is a violation (asserted only while the product of all occurrence primes is < 2^128); (7) per solver a two-way map between cur_residual() (the set of removed literal occurrences, compared by the component cache since dd48a81) and the residual formula as a family indexed by clause position: equal sets with different formulas, or one formula under two sets, is a violation; cur_residual() is part of the state compared in (4). Decisions re-decide assigned variables and decide against implied values. Non-trivial = at least one decision propagated a further literal; distinct = distinct (CNF) inputs. Wide regime: the input's (at most 10) variables are spread over up to 200 rsdd labels, biased to the 64/128 word boundaries, most indices unused; orders, vtrees, partial models and weight tables cover the whole label range, while the oracle keeps working on the dense variables through the harness's own label map. Regime hash_witness replays the two recorded collision witnesses of the pre-fix hash (F12: 770- and 2 308-variable CNFs whose literal-prime products agree modulo 2^128): the two reachable states must not have the same hash; witness 3 (F17, constructed against the repaired hash modulo 2^127-1) genuinely has two states with one hash and is listed in known_findings.json (KNOWN-FINDING line), while their cur_residual() sets must differ.",
         "assumptions": ASSUME_COMMON + ["S6: decide() returning UNSAT pushes nothing, so the harness pops only after SAT/Unknown and never pops the two base states", "the residual hash is 127 bits wide: equal hashes of different residual formulas remain possible in principle; after fix b9cf6e5 constructing one means finding a multiplicative relation between small primes modulo 2^127-1, which no workload here attempts (the two witnesses of the pre-fix hash are replayed as fixed regressions)"],
     },
     "C07": {
